@@ -321,7 +321,7 @@ func (e *regRun) lineOK(f []string) bool {
 		_, ok3 := parseInts(f[5])
 		_, ok4 := parseInts(f[6])
 		_, ok5 := e.arg(f[7])
-		return ok0 && ok1 && ok2 && ok3 && ok4 && ok5 && (f[2] == "ptr" || f[2] == "val" || f[2] == "ptrint" || f[2] == "same")
+		return ok0 && ok1 && ok2 && ok3 && ok4 && ok5 && (f[2] == "ptr" || f[2] == "val" || f[2] == "ptrint" || f[2] == "ptrptr" || f[2] == "same")
 	}
 	return false
 }
@@ -566,6 +566,8 @@ func (e *regRun) execResource(f []string) {
 		e.r.Resource(base, val, mws...)
 	case "ptrint":
 		e.r.Resource(base, new(notStruct), mws...)
+	case "ptrptr": // a **T over a controller struct
+		e.r.Resource(base, &ptr, mws...)
 	case "same":
 		e.r.Resource(base, e.keptCtrl(rid, im[0], um[0]), mws...)
 	}
@@ -897,6 +899,7 @@ func (regEngine) Corpus() []Case {
 		// rejected controllers
 		{Ops: []string{"new 0", "resource 1000 val " + h("/") + " " + h("r003") + " 3 0 -", "run", "info 1000"}},
 		{Ops: []string{"new 0", "resource 1000 ptrint " + h("/") + " " + h("notstruct") + " 3 0 -", "run", "miss"}},
+		{Ops: []string{"new 0", "resource 1000 ptrptr " + h("/") + " " + h("r127") + " 127 0 -", "run", "routes", "miss"}, Tag: "corpus-ptrptr"},
 		// the handler limit: 62 handlers are accepted, 63 panic (Route.Use and appendGroupInfo)
 		{Ops: []string{"new 0", "route 1 verb - GET " + h("/r1") + " - " + regSeq(3000, 62), "run", "info 1", "serve 1 GET"}},
 		{Ops: []string{"new 0", "route 1 verb - GET " + h("/r1") + " - " + regSeq(3000, 63), "run", "info 1"}},
